@@ -973,7 +973,11 @@ def run(ctx: C.Ctx):
                 'point; unrelated classes fed ==/hash-equal values of different types (1 / 1.0 / True / "1", 0 / -0.0 / False) at one annotated '
                 'type, scalar kinds incl. timedelta / Decimal / Enum-by-value, bare and in containers; Unions mixing Literal members with plain '
                 'members of the same Python type and tagged dataclasses, values of one type alternating between members; one Pattern object / '
-                'Annotated alias shared by date / time / datetime fields of unrelated classes, fields absent from early documents), each run in a forked pristine child; every load/dump position is re-run alone (needed definitions + the op) in another pristine child and the '
+                'Annotated alias shared by date / time / datetime fields of unrelated classes, fields absent from early documents; '
+                'classes whose functions are built more than once, either engine: rich classes (CatchAll required / defaulted, aliased keys, '
+                'nested paths, default factories, nested classes direct / list / dict / Optional) whose first 1..2 uses fail during the set-up because a '
+                'nested class (one or two levels down) is not a dataclass yet or is a forward reference to a class defined later in the module, '
+                'used again after the cause is removed; one rich class nested under two main classes and used on its own), each run in a forked pristine child; every load/dump position is re-run alone (needed definitions + the op) in another pristine child and the '
                 'two outcomes compared. Non-trivial = distinct (history, position) after the first op.')
     n = ctx.quick(195, 2500)
     for i in range(n):
@@ -989,6 +993,17 @@ def run(ctx: C.Ctx):
         if ctx.done(i):
             break
         ops = gen_history(rng, MEMO_FAMILIES if rng.random() < 0.8 else MEMO_FAMILIES * 3 + FAMILIES)
+        if not ctx.begin_case(i):
+            continue
+        check_history(ctx, 'history', i, ops)
+    # histories in which the functions of a class are built more than once: a first use that fails during the set-up and is repeated
+    # after the cause is removed; one rich class reached through two main classes (now and then interleaved with another family)
+    from harness.props import c06_setup
+    for j in range(ctx.quick(70, 1000)):
+        i = 60000 + j
+        if ctx.done(i):
+            break
+        ops = gen_history(rng, c06_setup.SETUP_FAMILIES if rng.random() < 0.85 else c06_setup.SETUP_FAMILIES * 2 + FAMILIES)
         if not ctx.begin_case(i):
             continue
         check_history(ctx, 'history', i, ops)
